@@ -756,7 +756,7 @@ package lorawan
 
 //@ func RegisterProprietaryMACCommand
 //@   props C07 C09 C10
-//@   uses registry_ok
+//@   maintains registry_ok
 //@   modifies macPayloadRegistry[uplink]
 //@   ensures C07/range: (err == nil) == (cid >= 128 && payloadSize >= 0 && payloadSize <= 255)
 //@   ensures C07/noop: (err != nil || payloadSize == 0) ==> forall up bool, c CID :: haskey(macPayloadRegistry[up], c) == old(haskey(macPayloadRegistry[up], c)) && macPayloadRegistry[up][c].size == old(macPayloadRegistry[up][c].size)
